@@ -42,6 +42,10 @@ func errStr(err error) string {
 	if err == nil {
 		return "nil"
 	}
+	if isNilValue(err) {
+		// a nil pointer of an error type inside a non-nil error: `err != nil` is true, calling Error() on it panics
+		return fmt.Sprintf("err TYPED-NIL-IN-A-NON-NIL-ERROR %T", err)
+	}
 	if err == error(packet.ErrTCPDataTooShort) {
 		return "err tooShortT"
 	}
